@@ -202,6 +202,28 @@ func decodeMore(dec string, in []byte) ([]uint64, string, error) {
 			return nil, "", fmt.Errorf("unknown profile %s", dec)
 		}
 		return decodeHandle(dec[:2], p, in)
+	case dec == "recv":
+		// receive(s, l, &p) on the Session of device A; the input is the stream form of p
+		l := c2.VerifC04Listener(serverKeys, &c2.VerifC04Mux{}, nil, nil)
+		h, err := c2.VerifC04Encode(nil, nil, c2.VerifC04Hello(devA(), false))
+		if err != nil {
+			return nil, "setup:cannot encode the hello: " + err.Error(), nil
+		}
+		serveOne(l, h)
+		if !c2.VerifC04Registered(l, devA()) {
+			return nil, "setup:the valid hello did not register", nil
+		}
+		c := data.NewChunk(in)
+		var p com.Packet
+		if err := p.UnmarshalStream(c); err != nil {
+			return nil, "", err
+		}
+		k, err := c2.VerifC04ReceiveFrags(l, devA(), &p)
+		if err != nil {
+			return nil, "", err
+		}
+		c2.VerifC04Pump(l)
+		return []uint64{uint64(k)}, "", nil
 	case strings.HasPrefix(dec, "b64:"):
 		n, _ := strconv.Atoi(dec[4:])
 		var w bytes.Buffer
@@ -411,6 +433,89 @@ func generateMore(corpus bool) {
 				x[32+rng.Intn(len(x)-32)] = byte(rng.U64())
 			}
 			runHandle("hr", p, rewrap(p, x), "random")
+		}
+	}
+	// ---- receive(): Multi container walk and fragment dispatch over bytes (modelled)
+	{
+		sub := func(id uint8, job uint16, dev device.ID, fl com.Flag, body []byte) *com.Packet {
+			v := &com.Packet{ID: id, Job: job, Flags: fl, Device: dev}
+			v.Write(body)
+			return v
+		}
+		frag := func(pos, ln, grp uint16, extra com.Flag) com.Flag {
+			var f com.Flag
+			f.SetGroup(grp)
+			f.SetLen(ln)
+			f.SetPosition(pos)
+			return f | extra
+		}
+		multi := func(dev device.ID, fl com.Flag, cnt int, subs ...*com.Packet) *com.Packet {
+			n := &com.Packet{ID: 0, Flags: com.FlagMulti | fl, Device: dev}
+			for _, v := range subs {
+				v.MarshalStream(n)
+			}
+			if cnt < 0 {
+				cnt = len(subs)
+			}
+			n.Flags.SetLen(uint16(cnt))
+			n.Flags &^= com.FlagFrag
+			return n
+		}
+		a, o := devA(), devID(0x91)
+		tops := []*com.Packet{
+			sub(0xC0, 1, a, 0, pat(9, 1)),
+			sub(0, 0, a, 0, nil),
+			sub(0xC0, 1, o, 0, pat(9, 1)),
+			sub(0xC0, 1, o, com.FlagMultiDevice, pat(9, 1)),
+			sub(0xC0, 1, a, com.FlagOneshot, pat(9, 1)),
+			sub(4, 1, a, 0, pat(3, 1)),
+			sub(4, 1, a, com.FlagCrypt, pat(40, 1)),
+			sub(0xC0, 1, a, frag(0, 0, 5, 0), pat(4, 1)),
+			sub(0xC0, 1, a, frag(0, 1, 5, 0), pat(4, 1)),
+			sub(0xC0, 1, a, frag(0, 1, 5, com.FlagMulti>>1<<1), pat(4, 1)),
+			sub(0xC0, 1, a, frag(0, 3, 5, 0), pat(4, 1)),
+			sub(0xC0, 1, a, frag(2, 3, 5, 0), pat(4, 1)),
+			sub(6, 1, a, frag(0, 3, 5, 0), nil),
+			sub(3, 1, a, frag(0, 3, 5, 0), nil),
+			multi(a, 0, -1, sub(0xC0, 1, a, 0, pat(5, 1)), sub(0xC1, 2, a, 0, pat(300, 2))),
+			multi(a, 0, 0, sub(0xC0, 1, a, 0, pat(5, 1))),
+			multi(a, 0, 3, sub(0xC0, 1, a, 0, pat(5, 1)), sub(0xC1, 2, a, 0, pat(3, 2))),
+			multi(a, 0, 1, sub(0xC0, 1, a, 0, pat(5, 1)), sub(0xC1, 2, a, 0, pat(3, 2))),
+			multi(a, 0, -1, multi(a, 0, -1, sub(0xC0, 1, a, 0, pat(5, 1)), multi(a, 0, -1, sub(0xC2, 1, a, 0, pat(2, 1)))), sub(0xC1, 2, a, frag(0, 1, 3, 0), pat(3, 2))),
+			multi(a, 0, -1, sub(0xC0, 1, a, 0, pat(5, 1)), sub(0xC0, 1, o, 0, pat(5, 1))),
+			multi(a, com.FlagMultiDevice, -1, sub(0xC0, 1, a, 0, pat(5, 1)), sub(0xC0, 1, o, 0, pat(5, 1))),
+			multi(a, com.FlagMultiDevice, -1, sub(0xC0, 1, o, com.FlagMultiDevice, pat(5, 1)), c2.VerifC04Hello(devID(0x81), false)),
+			// a fragment group completed inside one container; one with an empty member; one whose
+			// second member does not belong (other Job)
+			multi(a, 0, -1, sub(0xC0, 7, a, frag(0, 2, 8, 0), pat(5, 1)), sub(0xC0, 7, a, frag(1, 2, 8, 0), pat(6, 1)), sub(0xC0, 7, a, frag(1, 2, 8, 0), pat(6, 1))),
+			multi(a, 0, -1, sub(0xC0, 7, a, frag(0, 3, 8, 0), nil), sub(0xC0, 7, a, frag(1, 3, 8, 0), pat(6, 1)), sub(0xC0, 7, a, frag(2, 3, 8, 0), nil)),
+			multi(a, 0, -1, sub(0xC0, 7, a, frag(0, 3, 8, 0), pat(5, 1)), sub(0xC0, 9, a, frag(1, 3, 8, 0), pat(6, 1))),
+			multi(a, 0, -1, sub(0xC0, 7, a, frag(0, 3, 8, 0), pat(5, 1)), sub(0xC0, 7, a, frag(0, 4, 9, 0), pat(6, 1)), sub(0xC1, 7, a, frag(1, 3, 8, 0), pat(6, 1))),
+		}
+		for i, t := range tops {
+			var c data.Chunk
+			t.MarshalStream(&c)
+			m := payload(&c)
+			// top packet: ID 0, job 1-2, tag count 3-4, flags 5..12 (len 5-6, position 7-8, group 9-10, bits 11-12), device 13..44, body prefix 45..
+			pos := []int{0, 4, 5, 6, 8, 10, 11, 12, 13, 45, 46}
+			if i >= 14 {
+				// first sub-packet: starts behind the body prefix (1 or 2 length bytes)
+				b := 47
+				if len(m) > 47+255 {
+					b = 48
+				}
+				pos = append(pos, b, b+3, b+4, b+5, b+6, b+8, b+10, b+11, b+12, b+13, b+45, b+46)
+			}
+			derive("recv", m, pos)
+		}
+		for i := 0; i < 4*nRandom; i++ {
+			var c data.Chunk
+			tops[14+rng.Intn(len(tops)-14)].MarshalStream(&c)
+			x := payload(&c)
+			for k := 0; k < 2; k++ {
+				x[45+rng.Intn(len(x)-45)] = byte(rng.U64())
+			}
+			run("recv", x, "random")
 		}
 	}
 	// ---- base64 shift transform (modelled)
